@@ -633,6 +633,9 @@ func xRenderNodes(nodes []*xNode, sb *strings.Builder, frags *[]*xFragDef) {
 
 // xRender renders a whole query document; variables used by directives are
 // declared as Boolean variables.
+// xVarDefaults: variables declared with a default value (and then not supplied).
+var xVarDefaults map[string]bool
+
 func xRender(nodes []*xNode, varNames []string) string {
 	var sb strings.Builder
 	if len(varNames) > 0 {
@@ -642,6 +645,13 @@ func xRender(nodes []*xNode, varNames []string) string {
 				sb.WriteString(", ")
 			}
 			sb.WriteString("$" + v + ": Boolean")
+			if d, ok := xVarDefaults[v]; ok {
+				if d {
+					sb.WriteString(" = true")
+				} else {
+					sb.WriteString(" = false")
+				}
+			}
 		}
 		sb.WriteString(") ")
 	}
@@ -659,7 +669,8 @@ func xRender(nodes []*xNode, varNames []string) string {
 func (sch *xSchema) xRunText(root *xRoot, nodes []*xNode, vars map[string]interface{}, sched WorkScheduler) xResult {
 	var varNames []string
 	for _, k := range []string{"s0", "s1", "s2", "s3", "i0", "i1", "i2", "i3"} {
-		if _, ok := vars[k]; ok {
+		_, isDefault := xVarDefaults[k]
+		if _, ok := vars[k]; ok || isDefault {
 			varNames = append(varNames, k)
 		}
 	}
